@@ -36,10 +36,10 @@ if r.returncode != 0:
 results = []
 try:
     for d in dirs:
-        diffs = sorted(glob.glob(d + "/C[0-9][0-9]-[0-9]*.diff"))
+        diffs = sorted(glob.glob(d + "/*C[0-9][0-9]-[0-9]*.diff"))
         if mode == "each":
             for f in diffs:
-                pid = os.path.basename(f)[:3]
+                pid = re.search(r"C\d\d", os.path.basename(f)).group(0)
                 a = sh("git", "-C", WT, "apply", f)
                 if a.returncode != 0:
                     print(os.path.basename(f), "DOES NOT APPLY", a.stderr.strip()[:120]); continue
